@@ -229,3 +229,26 @@ Qed.
 (* ---- connections ---- *)
 Lemma serve_conn (x : serve_exit) : serve_events x = [TagConn; ConnBegin true; ConnEnd true].
 Proof. reflexivity. Qed.
+
+(* ---- the tag clause ---- *)
+Lemma depths_from_ge pos prefix n i evs :
+  i < n -> Forall (fun p : sev * nat => S i <= snd p) (depths_from pos prefix n i evs).
+Proof.
+  intro H. revert pos. induction evs as [|e evs IH]; intro pos; [constructor|].
+  cbn [depths_from]. constructor; [|apply IH].
+  cbn [snd]. destruct (Nat.ltb pos prefix); lia.
+Qed.
+
+(* every event handler i receives for an RPC is delivered with a context to which
+   handler i's own TagRPC has been applied (the context TagRPC returned, or one
+   derived from it by the later handlers' TagRPC) *)
+Lemma tag_depths_ge server n i evs :
+  i < n -> Forall (fun p : sev * nat => S i <= snd p) (tag_depths server n i evs).
+Proof. apply depths_from_ge. Qed.
+
+Lemma tag_depths_events server n i evs : map fst (tag_depths server n i evs) = evs.
+Proof.
+  unfold tag_depths. generalize 0 as pos. induction evs as [|e evs IH]; intro pos; [reflexivity|].
+  cbn [depths_from map fst]. rewrite IH. reflexivity.
+Qed.
+
